@@ -180,6 +180,13 @@ def gen_hex(ck):
         else:
             txt = ' '.join('%02X' % b for b in bs + [rng.choice([0, 0x90, 0xf7])])
         texts.append(txt)
+    # valid hex whose bytes are NOT a well-formed message (data bytes above 127, status in a data position, wrong lengths)
+    for _ in range(1500 if ck.tier == 'quick' else 15000):
+        t, d = msgs.random_message(rng, max_sysex=4)
+        bs = list(msgs.encode_ref(t, d))
+        k = rng.randrange(len(bs))
+        bs[k] = rng.choice([0x80, 0xff, 0x90, 0xf7, 0x7f, 0x00, bs[k] ^ 0x80])
+        texts.append(rng.choice([' ', '']).join('%02X' % b for b in bs))
     texts += ['', ' ', 'F8', 'f8', 'F', 'F 8', '0xF8', 'FG', '90 3C 40', '903C40', '90  3C\t40', '9 03C40']
     return texts
 
@@ -196,6 +203,8 @@ def impl_hex(text):
     except ValueError:
         return 'ok ' + msgs.canon_msg(m), f'from_hex({text!r}) returned {m!r} for text that is not hex'
     fail = None if list(m.bytes()) == list(ref) else f'from_hex({text!r}) returned {m!r}'
+    if fail is None and msgs.decode_ref(list(ref)) is None:
+        fail = f'from_hex({text!r}): the bytes {list(ref)} are not one well-formed message but {m!r} was returned'
     return 'ok ' + msgs.canon_msg(m), fail
 
 
